@@ -113,7 +113,8 @@ verus_unit("divisorv", "divisorv", ["C16", "C17"], [
     "theorem_zero_set (specification level: on the trace domain the numerator of from_assertion vanishes at step i exactly when i is an asserted step - i == first_step, resp. i mod stride == first_step - for every trace length, relative to 'g has order exactly n' and the monoid laws, both hypotheses)"])
 
 
-verus_unit("oodv", "oodv", ["C03", "C06", "C12"], [
+verus_unit("oodv", "oodv", ["C03", "C06", "C12", "C04"], [
+    "TraceOodFrame::to_trace_states / TraceOodFrame::hash (what the coin absorbs for the out-of-domain trace frame: the hash of the current / next evaluations interleaved per column followed by the Lagrange kernel frame values, every width)",
     "OodFrame::parse (every main / auxiliary width up to 255, every number of evaluations, every Lagrange frame size, EVERY content of the three byte vectors, abstract element decoder: Ok exactly when each section is canonical - Lagrange section = size byte k + exactly k element encodings, k > 0 only with an auxiliary segment; trace-state section = the byte 2 + exactly 2 * (main + aux') encodings; evaluation section = exactly num_evaluations encodings; nothing may follow in any section - and then the rows are the de-interleaved decoded elements, exactly main + aux' wide; no overflow / underflow / out-of-range index on any input)",
     "TraceOodFrame::new",
     "Commitments::parse (every number of trace segments and FRI layers, every byte content: Ok exactly when the bytes are num_trace_segments + 1 + num_fri_layers + 1 digest encodings and nothing else; the three results are those digests in order)",
